@@ -171,7 +171,9 @@ func LayerConvertFuncWithCompressionLevel(compressionLevel zstd.EncoderLevel, op
 			if _, err := cs.Update(ctx, content.Info{
 				Digest: w.Digest(),
 				Labels: map[string]string{labels.LabelUncompressed: labelz[labels.LabelUncompressed]},
-			}, "labels."+labels.LabelUncompressed); err != nil {
+			}, "labels."+labels.LabelUncompressed); err != nil && !errdefs.IsFailedPrecondition(err) {
+				// (a content store that doesn't keep labels, like the plain local store, rejects
+				// updates as a failed precondition: Commit can't record labels there either)
 				return nil, err
 			}
 		}
